@@ -56,8 +56,11 @@ pub fn run_op(op: &str, n: usize, dotted: bool) {
         "datum_drop" => { let d = datum(); drop(d); }
         "datum_list_iter" => { let d = datum(); assert!(d.list_iter().unwrap().count() >= n); }
         "datum_to_value" => { let d = datum(); let v: Value = d.into(); assert!(v.is_cons()); }
+        #[cfg(feature = "with-serde")]
         "to_value" => { let xs: Vec<i64> = (0..n as i64).collect(); let v = serde_lexpr::to_value(&xs).unwrap(); assert!(v.is_cons()); }
+        #[cfg(feature = "with-serde")]
         "from_value" => { let v = build(n, false); let xs: Vec<i64> = serde_lexpr::from_value(&v).unwrap(); assert_eq!(xs.len(), n); }
+        #[cfg(feature = "with-serde")]
         "serde_text" => { let xs: Vec<i64> = (0..n as i64).collect(); let s = serde_lexpr::to_string(&xs).unwrap(); let ys: Vec<i64> = serde_lexpr::from_str(&s).unwrap(); assert_eq!(xs, ys); }
         "value_list" => { let v = Value::list((0..n as i64).map(Value::from)); assert!(v.is_cons()); }
         "value_append" => { let v = Value::append((0..n as i64).map(Value::from), Value::list(vec![1, 2])); assert!(v.is_list()); }
